@@ -6,7 +6,7 @@ use triomphe::Arc;
 
 fn main() {
     let mut t = Tally::new();
-    for r in 0..rounds(4) {
+    for r in 0..rounds(6) {
         let tag = 700 + r as u64;
         let a = Arc::new(Payload::new(tag));
         t.shared(2);
